@@ -12,16 +12,22 @@ META = {
             "sessions verify iff now < issue + capped lifetime, time tokens iff strictly inside the window, JWT "
             "time/claim/header/key checks are characterised exactly, and over all histories of issue / attempt / "
             "disable / enable with arbitrary clocks a passcode is accepted only inside its window, once, and "
-            "after at most ten refused attempts.  Constants and the comparison shapes are re-extracted from "
-            "/repo on every run; the models are tied to the code by differential runs evaluated inside Coq, "
-            "with HMAC/RSA/JSON values supplied by Go for exactly the arguments queried.",
+            "after at most ten refused attempts.  The same holds through every entry point (CheckState, CheckJSON, "
+            "the gate with its check callback, any caller-supplied jwt.Verifier or none, a card whose identity "
+            "cannot be fetched) and over every history of calls on one long-lived object, in particular on one "
+            "verifier whose card replaces, adds, removes or expires keys between calls: the objects hold "
+            "configuration only (fields and receiver writes extracted from the source), and each verification "
+            "depends on the token, the card in force at that moment and the clock.  Constants and the comparison "
+            "shapes are re-extracted from /repo on every run; the models are tied to the code by differential "
+            "runs evaluated inside Coq, with HMAC/RSA/JSON values supplied by Go for exactly the arguments queried.",
     "note": "Trusted: Coq kernel + vm_compute; translator gen/cred.go; harness c16 and roles/signer verif shims; "
             "HMAC-SHA256, SHA-256, RSA PKCS#1 v1.5 and encoding/json are functions (Section variables), the "
             "injectivity idealisation mac_binds and the no-forgery premise are named hypotheses of the theorems "
             "that use them; strings.Fields modelled for ASCII; time.Unix overflow near 2^63 s not modelled; no axioms.",
     "technique": "Coq proof (iff characterisations, invariant over all passcode histories) + go/ast extraction of "
                  "constants and guard shapes + exhaustive single-bit/prefix/extension mutation sweeps against the "
-                 "implementation + vm_compute correspondence",
+                 "implementation + usage-pattern streams (one object for many calls, callback result shapes, card "
+                 "histories, real clock, concurrent use) + vm_compute correspondence",
 }
 
 MODEL = ["theories/Cred/CredCorr.vo"]
@@ -195,6 +201,12 @@ def to_coq(c):
         exp = "(Some (%s, %s))" % (B(o.get("out")), bl(o.get("refresh"))) if o["ok"] else "None"
         return "CGate %s %d %s %s %s %s" % (mtab(c.get("macs")), c["key"], Z(c["maxttl"]), Z(c["now"]),
                                             B(c.get("tok")), exp)
+    if op == "gatecb":
+        cb = "None" if c["cb"]["err"] else "(Some %s)" % Z(c["cb"]["lvl"])
+        exp = "None" if o["err"] else "(Some (%s, %s, %s, %s))" % (bl(o["ok"]), B(o.get("out")), Z(o.get("left", 0)),
+                                                                  bl(o.get("refresh")))
+        return "CGateCb %s %d %s %s %s %s %s" % (mtab(c.get("macs")), c["key"], Z(c["maxttl"]), Z(c["now"]),
+                                                B(c.get("tok")), cb, exp)
     if op == "chalcheck":
         ct = "(Some %s)" % Z(c["t0"]) if c.get("t0") is not None else "None"
         return "CChal %s %d %s %s %s %s %d" % (mtab(c.get("macs")), c["key"], Z(c["window"]), Z(c["now"]),
@@ -263,7 +275,12 @@ def pass_oracle(c):
                "expire": int(st0["expire"]) if st0.get("hasexpire") else None,
                # a counter the operations cannot have produced is not read as a count of attempts
                "wrong": st0["tried"] if 0 <= st0["tried"] <= 1000 else 0, "used": st0["consumed"]}
+    disabled = False
     for i, (op, res) in enumerate(zip(c["ops"], c["obs"].get("pass") or [])):
+        if op["op"] in ("disable", "enable") and res["r"] == 0:
+            disabled = op["op"] == "disable"
+        if op["op"] == "try" and res["r"] == 0 and disabled:
+            return "accepted-while-disabled", "attempt %d set up an identity for a role that was disabled" % i
         if op["op"] == "new" and res["r"] == 0:
             issued += 1
             st = res["st"]
@@ -756,7 +773,8 @@ def run(ck):
         level="proof",
         checker_cmd="bin/check C16 (gen -> make -C coq theories/Props/C16.vo -> Print Assumptions audit -> "
                     "harness c16: mutation sweeps against the implementation + vm_compute of Cred/CredCorr.v)",
-        trusted=["Coq 8.16.1 kernel + vm_compute", "translator gen/cred.go (constants, guard shapes)",
+        trusted=["Coq 8.16.1 kernel + vm_compute",
+                 "translator gen/cred.go (constants, guard shapes, fields and receiver writes of long-lived types)",
                  "harness/cmd/c16 + checks/c16.py comparison", "roles/verif_export.go, signer/verif_export.go shims",
                  "functions, not verified: HMAC-SHA256, SHA-256, RSA PKCS#1 v1.5, encoding/json, ssh key parsing",
                  "modelled not verified: time.Time arithmetic, strings.Split/Fields, pisces KV Mutate (C05)"],
@@ -764,8 +782,11 @@ def run(ck):
              "RSA block, HS256, RS256/self) every single-bit flip, every strict prefix, every one-byte extension, "
              "hex case flips, base64url last-character/padding/CR-LF variants, header rewrites and part-count "
              "changes against the implementation (sweep:* streams, one evaluation per mutant); boundary instants "
-             "+-1 ns / +-1 s; all 2^5 claim-template combinations; seeded passcode histories (splitmix64); a case "
-             "is non-trivial unless its input is empty; distinct = distinct case content",
+             "+-1 ns / +-1 s; all 2^5 claim-template combinations; seeded passcode histories (splitmix64); "
+             "usage-pattern streams: fixed sequences on one long-lived object per type, every result shape of "
+             "every caller-supplied callback, fixed and seeded histories of card changes on one verifier, "
+             "hour-wide margins on the real clock; a case is non-trivial unless its input is empty; "
+             "distinct = distinct case content",
         assumptions=["64-bit int", "instants and lifetimes within int64 nanoseconds",
                      "mac_binds (HMAC injective) and the no-forgery premise are idealisations named in the theorems",
                      "JWT expiry follows the code: now = exp is still accepted"])
